@@ -193,3 +193,88 @@ class C04(NlpCheck):
                 self.violation("subject_to(..., grid='integrator_roots') under %s is neither placed nor rejected (ng unchanged: %d)" % (desc['method']['kind'], b.opti.g.numel()),
                                {"desc": desc}, {"kind": "unplaceable-ignored", "grid": "integrator_roots", "method": desc['method']['kind']})
                 return
+
+
+OBJK = ['at_tf', 'at_t0', 'integral', 'sum', 'sum_plus', 'int_control']
+
+
+@register
+class C05(NlpCheck):
+    pid = "C05"
+    slices = ["objective-all-methods", "colloc-integrates-constants", "sol.value(objective)-vs-solver"]
+    tags = ()
+    want_f = True
+    profiles = [
+        ("objective-all-methods",
+         {'methods': ALLM + [('ss', 'euler')], 'grids': FIXED_GRIDS + ['free', 'uniform_locT', 'geometric_locT0'], 'horizon': HORIZ,
+          'obj_kinds': OBJK, 'obj_terms': (1, 4), 'ncons': (0, 1), 'features': {'qstate': 0.4},
+          'Ns': [1, 2, 2, 3, 3, 4, 5], 'Ms': [1, 1, 2, 3], 'degrees': [1, 2, 3, 4, 5]}, 70, 800),
+    ]
+
+    def explanation(self):
+        return ("theorems: objective = declared expression of the placeholder values; at_t0/at_tf at first/final node; sum / sum+ / "
+                "interval-length-weighted left sum; integral = accumulated quadrature of the stage's own rule (RK4 on the augmented "
+                "system; Σ h_k B_j q(root) for collocation, weights summing to one). correspondence: opti.f vs model at random points; "
+                "constant integrands integrate to c·T for every degree/scheme; sol.value(ocp.objective) equals the solver's objective")
+
+    def case_features(self, desc, kind, detail):
+        f = NlpCheck.case_features(self, desc, kind, detail)
+        f['obj_kinds'] = sorted(set(k for k, _ in desc['phs']))
+        return f
+
+    def exception_features(self, desc, exc):
+        f = NlpCheck.exception_features(self, desc, exc)
+        f['has_int_control'] = any(k == 'int_control' for k, _ in desc['phs'])
+        f['dimension_mismatch'] = 'Dimension mismatch' in str(exc)
+        return f
+
+    def correspondence(self):
+        NlpCheck.correspondence(self)
+        self.constants_slice()
+        self.solver_slice()
+
+    def constants_slice(self):
+        cases = [(d, s) for d in (1, 2, 3, 4, 5) for s in ('radau', 'legendre')]
+        if self.tier == 'quick':
+            cases = cases[:6] + [(4, 'radau')]
+        for d, s in cases:
+            desc = G.gen_case(self.rng, {'methods': [('dc', 'rk')], 'grids': ['uniform', 'geometric'], 'ncons': (0, 0), 'degrees': [d], 'schemes': [s], 'horizon': ['num']})
+            cval = Fr(self.rng.randint(1, 9), 2)
+            desc['phs'] = [('integral', Mo.E.C(cval))]
+            desc['obj'] = ('ph', 0)
+            b = B.build(desc)
+            xv, pv, fv = En.rand_point(self.rng, b)
+            f, g, lbg, ubg = B.eval_nlp(b, xv, pv)
+            want = cval * desc['T'][1]
+            self.evaluations += 1
+            self.count("constants:%s-%d" % (s, d))
+            if not close(want, f[0], max(f[1], 1.0)):
+                self.slice_ok["colloc-integrates-constants"] = False
+                self.violation("integral of the constant %s over T=%s with DirectCollocation(degree=%d, scheme=%s) is %s, not %s" % (cval, desc['T'][1], d, s, float(f[0]), float(want)),
+                               {"desc": desc, "x": xv, "p": pv}, {"kind": "colloc-constant", "degree": d, "scheme": s})
+
+    def solver_slice(self):
+        n = 3 if self.tier == 'quick' else 20
+        import numpy as np
+        for _ in range(n):
+            desc = G.gen_case(self.rng, {'methods': [('ms', 'rk'), ('dc', 'rk')], 'grids': ['uniform'], 'ncons': (0, 0), 'obj_kinds': ['at_tf', 'integral'],
+                                         'horizon': ['num'], 'Ns': [2, 3], 'Ms': [1], 'degrees': [2], 'nxs': [1, 2]})
+            try:
+                b = B.build(desc)
+                with B.quiet():
+                    b.ocp.solver('ipopt', {'ipopt.print_level': 0, 'print_time': False, 'ipopt.max_iter': 3, 'ipopt.sb': 'yes'})
+                    try:
+                        sol = b.ocp.solve()
+                    except Exception:
+                        sol = b.ocp.non_converged_solution
+                    val = float(sol.value(b.ocp.objective))
+                    st = sol.stats
+                    objs = st['iterations']['obj']
+            except Exception as e:
+                self.notes.append("solver slice skipped a case: %r" % (e,))
+                continue
+            self.evaluations += 1
+            self.count("solver-objective")
+            if not (abs(val - objs[-1]) <= 1e-8 * max(1.0, abs(val))) and np.isfinite(val):
+                self.slice_ok["sol.value(objective)-vs-solver"] = False
+                self.violation("sol.value(ocp.objective)=%r but the solver minimised %r" % (val, objs[-1]), {"desc": desc}, {"kind": "solver-objective"})
